@@ -7,6 +7,7 @@ SN = {'NODE_MATERIAL_SNIPPET': ('src/core/Node.cpp', 'make_handshake_material')}
 def jobs(tier):
     out = [Job('validate', 'kx.cpp', 'h_c12_validate', [0], reach=['accepted', 'refused'], snippets=SN, bounds='all 2^32 candidates'),
            Job('material', 'kx.cpp', 'h_c12_material', [0], reach=['distinct', 'same'], snippets=SN, bounds='all pairs of pairs of 32-bit public keys'),
+           Job('rehandshake', 'kx.cpp', 'h_c12_rehandshake', [0], reach=['rotated-between', 'not-rotated'], snippets=SN, bounds='handshake, optional rotation on one end, handshake again'),
            Job('session-key', 'kx.cpp', 'h_c12_session_key', [0], reach=['keyed'], snippets=SN, bounds='all secrets and public keys')]
     bits = 4 if tier == 'quick' else 6
     out.append(Job('dh-low%d' % bits, 'kx.cpp', 'h_c12_dh', [bits, 0], reach=['agreed'], snippets=SN, enum_cap=100, max_steps=50_000_000, bounds='a, b < 2^%d' % bits, timeout=3000))
